@@ -28,7 +28,7 @@ EXTRA_PROPS = {
     'R-MO-C01': ['C04'], 'R-MO-C06': ['C14', 'C15'], 'R-MO-C15': ['C16'], 'R-MO-C19': ['C15', 'C16'],
     'R-QRY': ['C04', 'C18'],
     'R-INIT-DISCR': ['C07'], 'R-EXC-PAIR': ['C06', 'C01'],
-    'R-CHAN': ['C20', 'C01'], 'R-SIB-C14': ['C07'], 'R-SIB-C01': ['C04', 'C05'],
+    'R-CHAN': ['C20', 'C01'], 'R-CHAN-CTX': ['C11', 'C01'], 'R-MOVE': ['C10'], 'R-SIB-C14': ['C07'], 'R-SIB-C01': ['C04', 'C05'],
 }
 
 
